@@ -60,7 +60,7 @@ class RealEnv(object):
                     outs.append(cm.outcome(lambda: cm.execute(db, op['q'], op['p'])))
                     continue
                 k = op['q']
-                if k in ('ModIns', 'ModUpd'):
+                if k in ('ModIns', 'ModUpd', 'ModM2M'):
                     view.append(k)
                     cm.modify(db, k, len(view))
                 elif k == 'Flush':
@@ -139,7 +139,7 @@ def show(prog):
 
 
 def known_signature(q):
-    if q == 'count':
+    if q in ('count', 'mcount', 'maxdate', 'sumdec'):
         return 'C05:_aggregate:result-cache-before-flush'
     if q in RAW_QUERIES:
         return 'C05:adapt_sql:percent-doubled-cache-key'
@@ -224,8 +224,8 @@ def run(ctx):
     quick = ctx.tier == 'quick'
     sc = ctx.scratch
     styles = '{"qmark", "format", "pyformat"}' if quick else '{"qmark", "format", "pyformat", "named"}'
-    qfams = '{"QB", "QT", "QA", "QS", "QR"}'
-    tfams = '{"Baked", "Types", "Aggr", "Str", "Raw"}'
+    qfams = '{"QB", "QT", "QA", "QS", "QM", "QD", "QR"}'
+    tfams = '{"Baked", "Types", "Aggr", "Str", "M2M", "Dyn", "Raw"}'
     all_ops = cm.strset(['ModIns', 'ModUpd', 'Flush', 'Commit', 'NewSession', 'Rollback'])
     ops3 = cm.strset(['ModIns', 'Flush', 'Commit'])
     ops4 = cm.strset(['ModIns', 'Flush', 'Commit', 'NewSession'])
